@@ -7,6 +7,7 @@ import (
 	"context"
 	"fmt"
 	"io/ioutil"
+	"os"
 	"sort"
 	"strings"
 	"time"
@@ -155,15 +156,21 @@ func (w *World) Entries(repo, id string) ([]Entry, error) {
 	return out, nil
 }
 
-// Download publishes a bundle (optionally filtered) into a fresh in-memory directory.
+// Download publishes a bundle (optionally filtered) into a fresh directory of the local file system
+// (the leaves of a file are written concurrently with WriteAt, which an in-memory afero file does not support).
 func (w *World) Download(repo, id string, concurrency int, pred func(string) (bool, error)) ([]File, error) {
-	dst := Consumable(nil)
+	_ = os.MkdirAll("/root/.cache/verif/tmp", 0o755)
+	tmp, err := os.MkdirTemp("/root/.cache/verif/tmp", "dl")
+	if err != nil {
+		return nil, err
+	}
+	defer os.RemoveAll(tmp)
+	dst := localfs.New(afero.NewBasePathFs(afero.NewOsFs(), tmp), localfs.WithRetry(false), localfs.WithLogger(Nop))
 	opts := []core.BundleOption{core.Repo(repo), core.ContextStores(w.Stores()), core.BundleID(id), core.ConsumableStore(dst), core.Logger(Nop)}
 	if concurrency > 0 {
 		opts = append(opts, core.ConcurrentFileDownloads(concurrency))
 	}
 	b := core.NewBundle(opts...)
-	var err error
 	if pred != nil {
 		err = core.PublishSelectBundleEntries(context.Background(), b, pred)
 	} else {
